@@ -223,3 +223,52 @@ func HarnessC16Fault() {
 		verif.Reach("retried")
 	}
 }
+
+// zz16Verdict: does full verification of main succeed (and with which tip)?
+func zz16Verdict(w *zzWorld) string {
+	tip, err := NewPolicyVerifier(w.S).VerifyRefFull(w.ctx, zzMain)
+	if err != nil {
+		return "rejected"
+	}
+	return "accepted:" + w.S.TreeDigest(w.S.CommitInfo(tip).Tree)
+}
+
+// HarnessC16Crash: the process stops dead right after the k-th storage call of
+// the operation.  The log must still be a valid chain and the verification
+// verdict of the branch must be the one from before or the one from after the
+// operation.
+func HarnessC16Crash() {
+	op := verif.Concrete(verif.Choice("op", 4))
+	// established repository only: verdicts need a policy and a recorded branch
+	ref, run := zz16Setup(1, op)
+	before := zz16Verdict(ref)
+	zzMust(run())
+	after := zz16Verdict(ref)
+
+	w, run := zz16Setup(1, op)
+	k := verif.IntRange("k", 1, verif.Bound("maxcalls", 80, 80))
+	w.S.SetFault(k, zzmem.FaultCrash)
+	crashed := false
+	func() {
+		defer func() {
+			if r := recover(); r != nil {
+				if _, ok := r.(zzmem.Crash); ok {
+					crashed = true
+					return
+				}
+				panic(r)
+			}
+		}()
+		run() //nolint:errcheck
+	}()
+	w.S.ClearFault()
+	if !crashed {
+		verif.Reach("completed")
+		return
+	}
+	verif.Reach("crashed")
+	_, ok := zz16Log(w.S)
+	verif.Assert(ok, "log-is-a-valid-chain-after-the-crash")
+	got := zz16Verdict(w)
+	verif.Assert(got == before || got == after, "verdict-after-crash-is-the-one-from-before-or-after")
+}
